@@ -1,6 +1,6 @@
 use crate::{
     gc::GC,
-    object::{Error, FromString, Object, Type},
+    object::{Error, FromString, Object, Type, MAX_INT, MIN_INT},
 };
 
 #[repr(u8)]
@@ -160,12 +160,22 @@ fn call_int(args: &[Object]) -> Result<Object, Error> {
                 0
             }
         }
-        Type::Float => unsafe { args[0].as_f64_unchecked() as isize },
+        Type::Float => {
+            let value = unsafe { args[0].as_f64_unchecked() }.trunc();
+            // MIN_INT is -2^60, which (unlike MAX_INT) is exactly representable as a float
+            if !(value >= MIN_INT as f64 && value < -(MIN_INT as f64)) {
+                return Err(Error::ArgumentError(format!(
+                    "{} past niet in een integer",
+                    args[0]
+                )));
+            }
+            value as isize
+        }
         Type::Int => return Ok(args[0]),
         Type::String => unsafe {
             match args[0].as_str_unchecked().trim().parse() {
-                Ok(val) => val,
-                Err(_) => {
+                Ok(val) if (MIN_INT..=MAX_INT).contains(&val) => val,
+                _ => {
                     return Err(Error::ArgumentError(format!(
                         "kan {:?} niet converteren naar een integer",
                         args[0].as_str_unchecked()
